@@ -29,8 +29,8 @@ P = {
          "Held for every poll order / partial-write pattern explored; thread runs add data-race detection.", "Trusted: mock transport, decoder.", "DESIGN.md §4 C10"),
  "C11": ("fault_enumeration", "runtime monitoring with fault enumeration: AbortRequest injected after every record of scripted connections (sync parsers and Token::run); history oracle",
          "Every abort position of every scripted connection executed.", "Trusted: mocks, reference model.", "DESIGN.md §4 C11"),
- "C12": ("fault_enumeration", "runtime monitoring with fault enumeration: EOF at every byte offset, read error at every read call, write error/zero-write at every write call; totality, no-spin and prefix oracles",
-         "Every fault point of every scripted connection executed.", "Spin = bounded-poll criterion; step budget exhaustion is inconclusive.", "DESIGN.md §4 C12"),
+ "C12": ("fault_enumeration", "runtime monitoring with fault enumeration: EOF at every byte offset, read error at every read call, write error/zero-write at every write call of small scripted connections, plus EOF at every record seam and sampled read errors of connections with full-size (64 KiB) records; totality, no-spin and prefix oracles",
+         "Every fault point of every small scripted connection executed; record seams of big-record connections.", "Spin = bounded-poll criterion; step budget exhaustion is inconclusive.", "DESIGN.md §4 C12"),
  "C13": ("exploration", "runtime monitoring: live-token counter invariant over generated operation histories (per-future counting wakers, quiescent-point invariant) + real-thread stress with quiescence detector; TSan, Miri seeds",
          "Held after every operation of every history explored and on all thread interleavings observed.", "Thread interleavings are whatever the OS/TSan/Miri scheduler produced.", "DESIGN.md §4 C13"),
  "C14": ("fault_enumeration", "runtime monitoring: shutdown requested at every executor step of scripted connections; hook-forced last-token drop inside WaitGroupFuture::poll windows; thread stress with lost-wakeup (quiescence) detector",
